@@ -13,23 +13,23 @@ import (
 // C01 — Totality: any project is accepted or rejected, never a crash or a hang.
 
 type c01 struct {
-	tier                          string
-	nCorpus, nGen, nSweep, nSoup  int
-	sweepTargets                  []sweepTarget
-	recoverSites                  map[int]string
-	st                            c01stats
+	tier                         string
+	nCorpus, nGen, nSweep, nSoup int
+	sweepTargets                 []sweepTarget
+	recoverSites                 map[int]string
+	st                           c01stats
 }
 
 type c01stats struct {
 	Exec, FaultFree, FaultRuns, Accepted, Rejected, NewErrs int
-	Fired                                                    [simrt.NumFaultKinds]int
-	Toctou, Reread, DepthGE2, SoftHit, MultiFault            int
-	MaxTicksPerByte                                          float64
-	MaxFSCalls                                               int
-	Distinct                                                 map[uint64]bool
-	Nontrivial                                               map[uint64]bool
-	Samples                                                  []any
-	SweepPoints, SoupDocs, GenDocs, MutualMacroDocs          int
+	Fired                                                   [simrt.NumFaultKinds]int
+	Toctou, Reread, DepthGE2, SoftHit, MultiFault           int
+	MaxTicksPerByte                                         float64
+	MaxFSCalls                                              int
+	Distinct                                                map[uint64]bool
+	Nontrivial                                              map[uint64]bool
+	Samples                                                 []any
+	SweepPoints, SoupDocs, GenDocs, MutualMacroDocs         int
 }
 
 type sweepTarget struct {
@@ -41,9 +41,9 @@ type sweepTarget struct {
 func init() {
 	runners["C01"] = func(tier string) runner {
 		c := &c01{tier: tier}
-		c.nCorpus, c.nGen, c.nSweep, c.nSoup = 2400, 1500, 600, 500
+		c.nCorpus, c.nGen, c.nSweep, c.nSoup = 12000, 8000, 3000, 5000
 		if tier == "thorough" {
-			c.nCorpus, c.nGen, c.nSweep, c.nSoup = 120000, 80000, 0, 40000
+			c.nCorpus, c.nGen, c.nSweep, c.nSoup = 400000, 300000, 0, 300000
 		}
 		c.st.Distinct = map[uint64]bool{}
 		c.st.Nontrivial = map[uint64]bool{}
@@ -401,7 +401,7 @@ func (c *c01) judge(cs *Case, r *Result, plan []simrt.PlannedFault) *Case {
 	}
 	if r.RecoveredRuntime > 0 {
 		site := c.recoverSites[r.RecoveredRuntimeSite]
-		return mk("runtime-fault-as-diagnostic", "recovered:"+normPanicMsg(r.RecoveredRuntimeMsg)+"@"+site,
+		return mk("runtime-fault-as-diagnostic", "raised-in:"+r.RecoveredRuntimeOrigin+",recovered-in:"+site,
 			fmt.Sprintf("a Go runtime fault was recovered at %s and turned into a result: %s (verdict accepted=%v msg=%q)", site, r.RecoveredRuntimeMsg, r.Accepted, r.Msg))
 	}
 	for _, m := range []string{r.Msg, r.NewErr, r.SerErr} {
